@@ -544,3 +544,24 @@ Definition quiescent (s : st) : bool := forallb task_idle (tasks s) && forallb j
 (* the registry of a case: the decorated definitions, applied in order to the empty registry *)
 Definition registry_of (l : list attempt) : registry :=
   last_reg empty_registry (run_attempts empty_registry l).
+
+(* ------------------------------------------------------------------ the server stops *)
+(* JsonRPCServer.shutdown() - what every start_* runs in its `finally`, after `exit` or when the
+   connection ends: `self._thread_pool.shutdown()` WAITS for the pool: every work item that was
+   submitted is picked up by a worker and runs to its end (done-callback included) before the call
+   returns; nothing is cancelled.  As seen from the model: the pool items that are still queued are
+   started and finished, the running ones finished, in submission order. *)
+Definition stop (c : cfg) (s : st) : st :=
+  fold_left (fun s' j => job_finish c j (job_start j s')) (seq 0 (length (jobs s))) s.
+
+Inductive evx :=
+| Base (e : ev)
+| Stop.
+
+Definition stepx (c : cfg) (s : st) (e : evx) : st :=
+  match e with
+  | Base e => step c s e
+  | Stop => stop c s
+  end.
+
+Definition runx (c : cfg) (evs : list evx) : st := fold_left (stepx c) evs init.
